@@ -377,7 +377,7 @@ def deep_update(target: DeepUpdateT, source: DeepUpdateT) -> DeepUpdateT:
             else:
                 DefaultValue.assign_to_if_not_default(target, key, value)
     else:
-        target = copy.deepcopy(source)
+        target = deep_update({}, copy.deepcopy(source)) if isinstance(source, collections.abc.Mapping) else copy.deepcopy(source)
     return target
 
 
